@@ -15,7 +15,7 @@ static const int64_t P62 = (int64_t)1 << 62;
 static void gen_limbs(std::vector<int64_t>& l, unsigned k, int fam, Rng& r) {
   const size_t n = l.size();
   const int64_t half = (int64_t)1 << (k - 1);
-  switch (fam % 8) {
+  switch (fam % 10) {
     case 0:  // maximal positive carry chain: all digits at 2^(k-1)-1, lowest limb pushes it over
       for (size_t i = 0; i < n; ++i) l[i] = half - 1;
       if (n) l[n - 1] = half + (int64_t)r.below(3);
@@ -44,6 +44,16 @@ static void gen_limbs(std::vector<int64_t>& l, unsigned k, int fam, Rng& r) {
         const int64_t c[] = {half, -half, half - 1, -half - 1, half + 1, 0};
         l[i] = c[r.below(6)] + ((int64_t)r.below(3) - 1) * ((k < 61) ? ((int64_t)1 << k) : 0);
       }
+      break;
+    case 8: {  // every limb a multiple of 2^(32+k) (k <= 30): digits 0, carries that are multiples of 2^32
+      const unsigned sh = 32 + std::min(k, 30u);
+      for (size_t i = 0; i < n; ++i) l[i] = (int64_t)r.sym((int64_t)1 << (62 - sh)) * ((int64_t)1 << sh);
+      if (n && r.below(2)) l[n - 1] = (int64_t)1 << 62;
+      break;
+    }
+    case 9:  // zero limbs in between: a zero limb creates no carry but must forward the one arriving from below
+      for (size_t i = 0; i < n; ++i) l[i] = r.below(2) ? 0 : r.sbits(62);
+      if (n) l[n - 1] = r.sbits(62) | 1;
       break;
     default:
       for (size_t i = 0; i < n; ++i) l[i] = r.sym(P62);
@@ -145,7 +155,7 @@ std::vector<Sub> vh_subs() {
     Sub s;
     s.name = "vec";
     s.fields = {{"kN", 1, 12}, {"k", 1, 62}, {"variant", 0, 2}, {"res_size", 0, 7}, {"a_size", 0, 7}, {"res_pad", 0, 3}, {"a_pad", 0, 3},
-                {"inplace", 0, 1}, {"begin", 0, 3}, {"step", 1, 4}, {"fam", 0, 7}, {"mtype", 0, 1}, {"prefill", 0, 3}, {"seed", 0, INT64_MAX - 1}};
+                {"inplace", 0, 1}, {"begin", 0, 3}, {"step", 1, 4}, {"fam", 0, 9}, {"mtype", 0, 1}, {"prefill", 0, 3}, {"seed", 0, INT64_MAX - 1}};
     s.run = [](const Vals& v, Ctx& c) {
       run_vec(c, v[0], (unsigned)v[1], (int)v[2], v[3], v[4], v[5], v[6], v[7], v[8], v[9], (int)v[10], (int)v[11], (int)v[12], (uint64_t)v[13]);
     };
@@ -175,7 +185,7 @@ std::vector<Sub> vh_subs() {
     // single-limb primitive: in + cin = out + cout*2^k for each of the six legal argument-presence combinations
     Sub s;
     s.name = "kernel";
-    s.fields = {{"logn", 0, 6}, {"k", 1, 62}, {"combo", 0, 5}, {"alias", 0, 3}, {"fam", 0, 7}, {"cfam", 0, 3}, {"seed", 0, INT64_MAX - 1}};
+    s.fields = {{"logn", 0, 6}, {"k", 1, 62}, {"combo", 0, 5}, {"alias", 0, 3}, {"fam", 0, 9}, {"cfam", 0, 3}, {"seed", 0, INT64_MAX - 1}};
     s.run = [](const Vals& v, Ctx& c) {
       const uint64_t n = 1ull << v[0];
       const unsigned k = (unsigned)v[1];
